@@ -238,6 +238,18 @@ func runFixtures(c *core.Ctx, engines ...string) {
 				}
 				c.FixtureResult("fold:"+tc.name, tc.want, len(foldThenCut([]*ssa.Function{f})) == 1)
 			}
+		case "lockleak":
+			n := fp.Named("", "Table")
+			if n == nil {
+				c.Hard("fixture type Table missing")
+				break
+			}
+			ms := methodsOf(fp, n)
+			r17NoLockLeakInHandles(sc, fp, []*ssa.Function{ms["GoodLeak"], ms["BadLeak"]}, "R17.10")
+			fg, bg, _ := sc.Find("R17.10", "GoodLeak|mutex-released")
+			fb, bb, _ := sc.Find("R17.10", "BadLeak|mutex-released")
+			c.FixtureResult("lockleak:GoodLeak", false, !fg || bg)
+			c.FixtureResult("lockleak:BadLeak", true, fb && bb)
 		case "paging":
 			for _, tn := range []string{"GoodDir", "BadDir"} {
 				n := fp.Named("", tn)
